@@ -833,9 +833,16 @@ def Truth.Injective (T : Truth) : Prop :=
 /-- the registry answers every request. -/
 def Oracle.Healthy (o : Oracle) : Prop := (∀ r, o.manifest r = true) ∧ ∀ r d, o.layer r d = true
 
+/-- the registry serves every layer request (manifest requests may fail). -/
+def Oracle.LayersOk (o : Oracle) : Prop := ∀ r d, o.layer r d = true
+
+/-- an operation during which no layer resolution fails.  The manifest part of the oracle is
+free: a manifest that cannot be fetched — registry error, or the client cancelled the context of
+its lookup (the layers themselves are resolved on `context.Background()`) — fails the lookup but
+is not memoised. -/
 def Op.Healthy : Op → Prop
-  | .lookup o _ _ => o.Healthy
-  | .info o _ _ => o.Healthy
+  | .lookup o _ _ => o.LayersOk
+  | .info o _ _ => o.LayersOk
   | _ => True
 
 /-- no error is memoised. -/
@@ -889,15 +896,15 @@ theorem resolve_okCached (T : Truth) (o : Oracle) (r : Nat) (s : St) (hI : Inv T
     · rw [hl]; intro hl0; exact hna ⟨hnone, ho, hl0⟩
   · exact resolve_lay_mono o r s hI.key d t r' t' (hO r' ls' d' t' hm' hin' hmem)
 
-theorem resolve_allOk (o : Oracle) (ho : o.Healthy) (r : Nat) (s : St) (d t : Nat)
+theorem resolve_allOk (o : Oracle) (ho : o.LayersOk) (r : Nat) (s : St) (d t : Nat)
     (hA : AllOk s) : AllOk (resolveLayer o r s (d, t)) := by
   intro r' d' x h
   rw [resolve_mem] at h
   split at h
-  · rw [ho.2 r d] at h; simpa using h.symm
+  · rw [ho r d] at h; simpa using h.symm
   · exact hA _ _ _ h
 
-theorem resolve_resolvable (T : Truth) (o : Oracle) (ho : o.Healthy) (r : Nat) (s : St)
+theorem resolve_resolvable (T : Truth) (o : Oracle) (ho : o.LayersOk) (r : Nat) (s : St)
     (hI : Inv T s) (ls : List (Nat × Nat)) (hm : T.images r = some ls) (hfun : DigestFun ls)
     (d t : Nat) (hin : (d, t) ∈ ls) (hR : Resolvable T s) :
     Resolvable T (resolveLayer o r s (d, t)) := by
@@ -919,7 +926,7 @@ theorem resolve_resolvable (T : Truth) (o : Oracle) (ho : o.Healthy) (r : Nat) (
     subst ht
     rcases resolve_lay_cases o r' s hI.key d2 t' with ⟨_, hl⟩ | ⟨hna, _⟩
     · rw [hl] at hnone; simp at hnone
-    · exact hna ⟨hn, ho.2 _ _, hnone0⟩
+    · exact hna ⟨hn, ho _ _, hnone0⟩
   · exact hmem2
 
 /-- the views of the state `loadRef` hands on are those of `s`. -/
@@ -945,7 +952,7 @@ theorem lookup_okCached (T : Truth) (hfun : T.Functional) (o : Oracle) (s : St) 
           resolve_okCached T o r s' hp.1 ls hi (hfun r ls hi) d t0 hdt hp.2⟩) s1 ⟨hI1, hO1⟩
     exact this.2
 
-theorem lookup_ok_inv (T : Truth) (hfun : T.Functional) (o : Oracle) (ho : o.Healthy) (s : St)
+theorem lookup_ok_inv (T : Truth) (hfun : T.Functional) (o : Oracle) (ho : o.LayersOk) (s : St)
     (r t : Nat) (hI : Inv T s) (hA : AllOk s) (hR : Resolvable T s) :
     AllOk (lookup T o s r t).1 ∧ Resolvable T (lookup T o s r t).1 := by
   rcases lookup_cases T o s r t with ⟨l, _, h⟩ | ⟨_, _, h⟩ | ⟨s1, ls, _, hl, h, _⟩
